@@ -13,6 +13,11 @@ def ob(oid, ok, expected, actual, detail="", **kw):
     return d
 
 
+def share(prefix, obs):
+    """obligations of another property's module stated here too: new id, the recorded known findings follow the original id"""
+    return [dict(o, id=prefix + o["id"], finding_key=o.get("finding_key", o["id"])) for o in obs]
+
+
 def guarded(oid, fn, detail=""):
     try:
         return fn()
@@ -151,6 +156,26 @@ def patcher_steps():
             res.append(ob("patch/assignment of a wrapped call/%s" % name, text == want, want, text))
         return res
     out += guarded("patch/assignment of a wrapped call", step6)
+
+    # 7. direct delivery for every kind of assignment target: `target = F(args)` is exactly one call that stores into the target
+    def step7():
+        res = []
+        targets = {
+            "numeric scalar": (lambda: E.BasicVar("X"), False, "X"), "string scalar": (lambda: E.BasicVar("X$", True), True, "X$"),
+            "numeric array element": (lambda: E.BasicArrayRef(E.BasicVar("X"), E.BasicExpressionList([OpqExp("i")])), False, "arr_X(%s)" % opaque.mark("i", 0)),
+            "string array element": (lambda: E.BasicArrayRef(E.BasicVar("X$", True), E.BasicExpressionList([OpqExp("i")]), is_str_expr=True), True, "arr_X$(%s)" % opaque.mark("i", 0)),
+        }
+        for name, (mk, is_str, ttext) in targets.items():
+            for let in (False, True):
+                opaque.reset()
+                f = functional("f", is_str)
+                A = E.BasicAssignment(mk(), f, let_kw=let)
+                A.visit(V.BasicFunctionalExpressionPatcherVisitor())
+                text = norm(A.basic09_text(0))
+                want = "run ecb_f(%s, %s)" % (opaque.mark("f_a1", 0), ttext)
+                res.append(ob("patch/direct delivery into a %s%s" % (name, ", LET" if let else ""), text == want, want, text))
+        return res
+    out += guarded("patch/direct delivery", step7)
     return out
 
 
